@@ -229,6 +229,34 @@ def kernels(opts):
                              "    auto r = verif::mk<%s>(a) - verif::mk<%s>(b);\n    return static_cast<std::int64_t>(cnl::unwrap(r));" % (T, T),
                              mode="bv", W=80, pre=upre(D), claims=uclaims(lambda env: env.a["a"] - env.a["b"]),
                              desc="static_integer<%d,%s> - same [%s,%s]" % (D, NT, r, o), tags={"shape": "si_sub_unsigned", "r": r, "o": o}))
+    # comparisons with a built-in integer that the static type cannot represent, judged by value (always run)
+    CMPS = {"eq": "==", "ne": "!=", "lt": "<", "le": "<=", "gt": ">", "ge": ">="}
+    for (T, D, E) in ((SI(8, "nearest", "sat"), 8, 0), (SN(6, 2, "nearest", "sat"), 6, 2), (SN(12, -3, "native", "thr"), 12, -3)):
+        for opn, sym in CMPS.items():
+            for side in (0, 1):
+                body = ("    return verif::mk<%s>(a) %s b;" if side == 0 else "    return b %s verif::mk<%s>(a);")
+                body = body % ((T, sym) if side == 0 else (sym, T))
+
+                def cpre(D, E):
+                    return lambda env: X.And(inr(env.a["a"], D), env.a["b"] >= -(1 << 20), env.a["b"] <= (1 << 20))
+
+                def cclaims(opn, side, E):
+                    def claims(env, path):
+                        if path.kind != "RET":
+                            return []   # an overflow signal is not a *silent* wrong value (UB is C07's subject)
+                        x, y = env.a["a"], env.a["b"]
+                        if E >= 0:
+                            x = x * (1 << E)
+                        else:
+                            y = y * (1 << (-E))
+                        if side == 1:
+                            x, y = y, x
+                        exp = {"eq": X.eq(x, y), "ne": X.ne(x, y), "lt": x < y, "le": x <= y, "gt": x > y, "ge": x >= y}[opn]
+                        return [("order-by-value", X.Iff(env.ret(path), exp))]
+                    return claims
+                ks.append(Kernel("K%d" % len(ks), [("a", "i32"), ("b", "i32")], "bool", body, mode="bv", W=80, pre=cpre(D, E),
+                                 claims=cclaims(opn, side, E), desc="%s %s built-in int (side %d), by value" % (T.replace("cnl::", ""), sym, side),
+                                 tags={"shape": "cmp_builtin", "r": "-", "o": "-"}))
     ks.append(mk_wide_mul("K%d" % len(ks), "nearest", "sat"))
     if tier != "quick":
         ks.append(mk_wide_mul("K%d" % len(ks), "native", "thr"))
